@@ -12,6 +12,7 @@ from .. import kmtrain as kt
 from ..impl import GMMMachine, GMMStats, KMeansMachine, em, hexlist, make_gmm
 
 D2 = "D2-map-variance-unsquared-prior-mean"
+D14 = "D14-relative-loglik-stopping-rule-depends-on-feature-units"
 linear_scoring = em.linear_scoring
 SWITCHES = list(itertools.product([True, False], repeat=3))
 
@@ -59,6 +60,24 @@ def run(chk):
         want = tr_stats(st, a, b)
         if not (close(stt.n, want.n) and close(stt.sum_px, want.sum_px) and close(stt.sum_pxx, want.sum_pxx, rtol=1e-6)):
             chk.fail("statistics are not equivariant under feature rescaling", ctx)
+        # ---- many features in small (or large) units: every single variance is ordinary, their product is outside the binary64 range
+        if i % 6 == 5:
+            Dh = r.choice([64, 150])
+            wh, muh, varh, sh = gen.gen_gmm(r, 2, Dh, "unit")
+            Xh = gen.sample_from(r, wh, muh, varh, 3)
+            gh = gen.nprng(r)
+            ah = gh.choice([-1.0, 1.0], size=Dh) * 10.0 ** (r.choice([-1, 1]) * gh.uniform(3, 5, size=Dh))
+            bh = gh.normal(size=Dh) * np.abs(ah) * sh
+            mh, mht = make_gmm(wh, muh, varh), make_gmm(wh, ah * muh + bh, ah * ah * varh)
+            shift_h = float(np.sum(np.log(np.abs(ah))))
+            l1, l2 = np.asarray(mh.log_likelihood(Xh)), np.asarray(mht.log_likelihood(ah * Xh + bh))
+            chk.count(1, key=("ll-many-features", Dh))
+            if not (np.all(np.isfinite(l2)) and close(l2, l1 - shift_h, rtol=1e-9, atol=1e-7)):
+                chk.fail("with %d features rescaled by |a| ~ 1e%+d the log-likelihoods do not shift by -sum(log|a|) (got %s, want %s)" % (Dh, int(np.sign(shift_h)) * 4, l2.tolist(), (l1 - shift_h).tolist()),
+                         {"a": hexlist(ah), "b": hexlist(bh), "X": hexlist(Xh), "w": hexlist(wh), "mu": hexlist(muh), "var": hexlist(varh), "shape": [2, Dh]})
+            s1h, s2h = mh.acc_stats(Xh), mht.acc_stats(ah * Xh + bh)
+            if not close(s2h.n, s1h.n, rtol=1e-7):
+                chk.fail("with %d rescaled features the responsibilities / counts are not invariant" % Dh, {"a": hexlist(ah), "X": hexlist(Xh), "shape": [2, Dh]})
         # ---- ML / MAP training, all switch settings
         sw = SWITCHES[i % 8]
         for trainer in ("ml", "map"):
@@ -91,6 +110,51 @@ def run(chk):
                 else:
                     chk.fail("%s training (switches %s, %d iterations) is not equivariant under feature rescaling" % (trainer.upper(), sw, K),
                              dict(ctx, switches=list(sw), trainer=trainer, iterations=K))
+        # ---- threshold-stopped ML training: the stopping iteration must not depend on the units either
+        if C >= 2 and i % 2 == 0:
+            swf = (True, True, True)
+            capL = 10
+            base = dict(w=w, mu=mu, var=var, thr=thr, sw=swf, eps=eps, cap=capL, cthr=None)
+            baset = dict(w=w, mu=a * mu + b, var=a * a * var, thr=thrt, sw=swf, eps=eps, cap=capL, cthr=None)
+            p1, _ = gt.build_machine(base)
+            _, L1, _ = gt.run_fit(p1, X)
+            # relative changes of this run and the ones the rescaled run will see (its log-likelihoods are L1 - shift)
+            rc1 = [abs((L1[k - 1] - L1[k]) / L1[k - 1]) if L1[k - 1] != 0 else np.inf for k in range(1, len(L1))]
+            rc2 = [abs((L1[k - 1] - L1[k]) / (L1[k - 1] - shift)) if L1[k - 1] != shift else np.inf for k in range(1, len(L1))]
+            placed = None
+            for k in range(1, len(rc1) - 1):               # stop at iteration k+1 >= 2 of exactly one of the two runs
+                lo, hi = min(rc1[k - 0], rc2[k - 0]), max(rc1[k - 0], rc2[k - 0])
+                if not (np.isfinite(lo) and np.isfinite(hi)) or lo <= 0 or hi / lo < 1.5:
+                    continue
+                th = float(np.sqrt(lo * hi))
+                if all(x > th * 1.2 for x in rc1[:k]) and all(x > th * 1.2 for x in rc2[:k]):
+                    placed = (k + 1, th)
+                    break
+            if placed is not None:
+                kstop, th = placed
+                q1, _ = gt.build_machine(dict(base, cthr=th))
+                q2, _ = gt.build_machine(dict(baset, cthr=th))
+                n1, H1, _ = gt.run_fit(q1, X)
+                n2, H2, _ = gt.run_fit(q2, Xt)
+                chk.count(1, key=("threshold-stopped", n1 == n2))
+                same = (n1 == n2 and close(q2.means, a * np.asarray(q1.means) + b, rtol=1e-6) and close(q2.variances, a * a * np.asarray(q1.variances), rtol=1e-5)
+                        and close(q2.weights, q1.weights, rtol=1e-7))
+                if not same:
+                    # explained by the stopping rule alone?  (i) iteration by iteration the two runs ARE equivariant (reported values differ by the constant
+                    # shift on the common prefix), (ii) each run stopped exactly where the relative-change rule puts it on ITS OWN reported values
+                    def own_stop(H, n):
+                        for k in range(1, len(H)):
+                            if abs((H[k - 1] - H[k]) / H[k - 1]) <= th:
+                                return k + 1 == n and len(H) == n
+                        return n == capL and len(H) == capL
+                    mlen = min(len(H1), len(H2))
+                    prefix = np.allclose(np.asarray(H2[:mlen]), np.asarray(H1[:mlen]) - shift, rtol=1e-7, atol=1e-7)
+                    info = dict(ctx, threshold=th, iterations=[n1, n2], reported=[H1, H2], shift=shift)
+                    if n1 != n2 and prefix and own_stop(H1, n1) and own_stop(H2, n2):
+                        chk.fail("threshold-stopped ML training stops at a different iteration after a change of feature units: the relative change of the "
+                                 "average log-likelihood is not invariant under the shift -sum(log|a|) of the log-likelihood", info, sig=D14)
+                    else:
+                        chk.fail("threshold-stopped ML training (threshold %r) is not equivariant under feature rescaling: iterations %d vs %d" % (th, n1, n2), info)
         # ---- linear scores invariant
         models = np.asarray(mu)[None] + g.normal(size=(2, C, D)) * s
         off = g.normal(size=(C, D)) * s * 0.2
